@@ -22,7 +22,86 @@ pub struct Case {
 }
 
 pub fn strategy(max_r: usize, max_n: usize, max_calls: usize) -> BoxedStrategy<Case> {
-    decoder_matrix(max_r, max_n)
+    strategy_on(decoder_matrix(max_r, max_n).boxed(), max_calls)
+}
+
+/// a check node with more than 255 neighbours: 2..=4 checks over 260..=400 variables, the first of
+/// them on nearly all variables. (Variable nodes stay far below 200 neighbours: C05 bounds the number of
+/// messages arriving at a variable of an 8-bit arithmetic by 200, and a variable of degree 259 or more
+/// does overflow its 16-bit sum.)
+fn high_degree_matrix() -> BoxedStrategy<Mat> {
+    prop_oneof![high_degree_few_checks(), high_degree_with_cover()].boxed()
+}
+
+/// one check over the first 256..=330 bits and n/4 checks of weight 4 that cover every bit once
+fn high_degree_with_cover() -> BoxedStrategy<Mat> {
+    (65usize..=90, 0usize..=20)
+        .prop_map(|(q, short)| {
+            let n = 4 * q;
+            let d = (n - short).max(256);
+            let mut rows: Vec<Vec<usize>> = vec![(0..d).collect()];
+            for r in 0..q {
+                rows.push(vec![r, r + q, r + 2 * q, r + 3 * q]);
+            }
+            Mat::from_rows(q + 1, n, &rows)
+        })
+        .boxed()
+}
+
+fn high_degree_few_checks() -> BoxedStrategy<Mat> {
+    (2usize..=4, 260usize..=400, any::<u64>())
+        .prop_map(|(r, n, seed)| {
+            let mut rows: Vec<Vec<usize>> = Vec::new();
+            let mut s = seed;
+            rows.push((0..n).filter(|j| j % 17 != 3).collect());
+            for i in 1..r {
+                let mut row = Vec::new();
+                for j in 0..n {
+                    s = splitmix(s);
+                    if s % (8 + i as u64 * 20) == 0 {
+                        row.push(j);
+                    }
+                }
+                if row.len() < 2 {
+                    row = vec![i, n - 1 - i];
+                }
+                rows.push(row);
+            }
+            Mat::from_rows(r, n, &rows)
+        })
+        .boxed()
+}
+
+/// histories for the high-degree matrices: codewords sent with strong LLRs (magnitude 8..16, so that
+/// the message of a check with hundreds of neighbours is not negligible) and one to three weak wrong
+/// bits, limits 2..=12: every call iterates, most need two or more iterations
+fn strong_history(matrix: BoxedStrategy<Mat>, max_calls: usize) -> BoxedStrategy<Case> {
+    matrix
+        .prop_flat_map(move |h| {
+            let n = h.cols;
+            let hh = h.clone();
+            // wrong bits either weak (0.3..2) or as strong as the right ones (hard-decision style frames
+            // of nearly constant magnitude, where every check's message matters)
+            let call = (any::<u64>(), proptest::collection::vec(8.0f64..16.0, n), proptest::collection::vec((any::<u16>(), 0.3f64..2.0), 1..=14), 0usize..=12, any::<bool>()).prop_map(move |(mask, mags, wrong, limit, hard)| {
+                let c = codeword_of(&hh, mask);
+                let mut v: Vec<f64> = c.iter().zip(&mags).map(|(&b, &m)| {
+                    let m = if hard { 20.0 + (m - 8.0) * 0.04 } else { m };
+                    if b == 1 { -m } else { m }
+                }).collect();
+                for (a, m) in wrong {
+                    let i = idx(a, v.len());
+                    v[i] = if hard { -v[i] } else if v[i] > 0.0 { -m } else { m };
+                }
+                Call { llrs: v.into_iter().map(Fx).collect(), limit }
+            });
+            (Just(h), proptest::collection::vec(call, 2..=max_calls))
+        })
+        .prop_map(|(h, calls)| Case { h, calls })
+        .boxed()
+}
+
+fn strategy_on(matrix: BoxedStrategy<Mat>, max_calls: usize) -> BoxedStrategy<Case> {
+    matrix
         .prop_flat_map(move |h| {
             let call = (llr_vector(&h), limit_strategy(), 0..100u8);
             (Just(h), proptest::collection::vec(call, 1..=max_calls))
@@ -270,6 +349,14 @@ pub fn property() -> Property {
                 strategy: wild_strategy,
                 check: check_wild,
                 health: &[("check-of-degree<=1", 0.30)],
+            }),
+            Box::new(Sub {
+                name: "fresh-vs-reused-high-degree",
+                rule: "same oracle on matrices with a check node of more than 255 neighbours (2..=4 checks over 260..=400 variables, the first on nearly all of them, or one check over 256..=330 bits plus weight-4 checks covering every bit once; variable degrees stay below C05's bound of 200), histories up to 5 calls, half of them made of codewords sent with strong LLRs and up to 14 wrong bits, weak (0.3..2) or as strong as the right ones (magnitude 20), under limits 0..=12",
+                cases: |t| t.pick(24, 2_000),
+                strategy: |_| prop_oneof![strategy_on(high_degree_matrix(), 5), strong_history(high_degree_matrix(), 5)].boxed(),
+                check,
+                health: &[],
             }),
             Box::new(Sub {
                 name: "concurrent-clones",
